@@ -132,7 +132,7 @@ func (c *CircuitBreaker) activateFallback(_ http.ResponseWriter, _ *http.Request
 	c.m.Lock()
 	defer c.m.Unlock()
 
-	c.log.Warn("%v is in error state", c)
+	c.log.Warn("%v is in error state", heldState{c})
 
 	switch c.state {
 	case stateStandby:
@@ -182,6 +182,13 @@ func (c *CircuitBreaker) isStandby() bool {
 
 // String returns log-friendly representation of the circuit breaker state.
 func (c *CircuitBreaker) String() string {
+	c.m.RLock()
+	defer c.m.RUnlock()
+	return c.describe()
+}
+
+// describe is String for callers that already hold c.m.
+func (c *CircuitBreaker) describe() string {
 	switch c.state {
 	case stateTripped, stateRecovering:
 		return fmt.Sprintf("CircuitBreaker(state=%v, until=%v)", c.state, c.until)
@@ -189,6 +196,11 @@ func (c *CircuitBreaker) String() string {
 		return fmt.Sprintf("CircuitBreaker(state=%v)", c.state)
 	}
 }
+
+// heldState formats the circuit breaker for log calls made while c.m is held (String would lock it again).
+type heldState struct{ c *CircuitBreaker }
+
+func (h heldState) String() string { return h.c.describe() }
 
 // exec executes side effect.
 func (c *CircuitBreaker) exec(s SideEffect) {
@@ -203,7 +215,7 @@ func (c *CircuitBreaker) exec(s SideEffect) {
 }
 
 func (c *CircuitBreaker) setState(state cbState, until time.Time) {
-	c.log.Debug("%v setting state to %v, until %v", c, state, until)
+	c.log.Debug("%v setting state to %v, until %v", heldState{c}, state, until)
 	c.state = state
 	c.until = until
 	switch state {
@@ -236,7 +248,7 @@ func (c *CircuitBreaker) checkAndSet() {
 	c.lastCheck = clock.Now().UTC().Add(c.checkPeriod)
 
 	if c.state == stateTripped {
-		c.log.Debug("%v skip set tripped", c)
+		c.log.Debug("%v skip set tripped", heldState{c})
 		return
 	}
 
